@@ -41,6 +41,17 @@ type recorder struct {
 	nilIDs     map[string][]int       // resource name -> ids allocated for pending expiry callbacks
 	pendingNil map[int][2]interface{} // goroutine -> (resource name, id) between the expiry note and its enqueue
 	nextNil    int
+	openSig    int // submissions that have enqueued a new work item and not yet returned from Signal
+	qexp       int // expiry timers that have fired
+}
+
+// settled reports whether no goroutine of this workload is still inside the library between two of
+// its notes (a submitter between its enqueue and the end of its Signal; an expiry timer that has not
+// fired, or has fired and not yet been enqueued or refused).
+func (r *recorder) settled(timers int64) bool {
+	r.mu.Lock()
+	defer r.mu.Unlock()
+	return r.openSig == 0 && len(r.pendingNil) == 0 && int64(r.qexp) >= timers
 }
 
 func goid() int {
@@ -81,6 +92,9 @@ func (r *recorder) add(point, wid string, n int) {
 		r.pendingNil[g] = [2]interface{}{rname, id}
 		n = id
 	case "s.enq.new", "s.enq.app":
+		if point == "s.enq.new" {
+			r.openSig++ // this goroutine still has its Signal (and the two notes around it) ahead
+		}
 		if pn, ok := r.pendingNil[g]; ok {
 			delete(r.pendingNil, g)
 			if r.nilIDs == nil {
@@ -90,6 +104,11 @@ func (r *recorder) add(point, wid string, n int) {
 		}
 	case "s.refused", "s.refused.closed":
 		delete(r.pendingNil, g)
+	case "s.sigend":
+		r.openSig--
+	}
+	if point == "s.qexpire" {
+		r.qexp++
 	}
 	r.notes = append(r.notes, note{g, point, wid, n})
 	r.mu.Unlock()
@@ -162,6 +181,7 @@ func runPoolWorkload(r *gen.R, c poolCfg, emit func(string)) {
 	rec.rgroup = map[string]string{}
 	var started, ended int64
 	var qeCreated, qeExpired int64
+	var qeTimers int64 // query events whose subscription succeeded: each has a timer that fires once
 
 	body := func(id int, seedv uint64) {
 		rec.add("h.cbstart", "", id)
@@ -197,7 +217,12 @@ func runPoolWorkload(r *gen.R, c poolCfg, emit func(string)) {
 		rec.add("h.cbstart", "", p.ID)
 		rname := r.ResourceName()
 		atomic.AddInt64(&qeCreated, 1)
+		var inCall int32 = 1
+		atomic.AddInt64(&qeTimers, 1)
 		r.QueryEvent(func(q res.QueryRequest) {
+			if q == nil && atomic.LoadInt32(&inCall) == 1 {
+				atomic.AddInt64(&qeTimers, -1) // the subscription failed: nil at once, no timer
+			}
 			if q == nil {
 				rec.mu.Lock()
 				ids := rec.nilIDs[rname]
@@ -215,6 +240,7 @@ func runPoolWorkload(r *gen.R, c poolCfg, emit func(string)) {
 			id, _ := strconv.Atoi(strings.TrimPrefix(q.Query(), "id="))
 			body(id, uint64(id))
 		})
+		atomic.StoreInt32(&inCall, 0)
 		atomic.AddInt64(&ended, 1)
 		rec.add("h.cbend", "", p.ID)
 		r.OK(nil)
@@ -397,6 +423,11 @@ func runPoolWorkload(r *gen.R, c poolCfg, emit func(string)) {
 	// timers of query events created shortly before the last Shutdown still fire (and are refused):
 	// let them do so while this workload's recorder is attached, not the next one's
 	time.Sleep(10 * time.Millisecond)
+	// ... and on a loaded machine a goroutine may be descheduled for longer than that between two of
+	// its notes (seen: a submitter between its enqueue and the note after its Signal): wait for them
+	for dl := time.Now().Add(3 * time.Second); !rec.settled(atomic.LoadInt64(&qeTimers)) && time.Now().Before(dl); {
+		time.Sleep(500 * time.Microsecond)
+	}
 	flushNotes(rec, emit)
 }
 
